@@ -187,11 +187,32 @@ UNITS += [
 """),
 ]
 
+UNITS += [
+    # the nested helper of LocalBackend::write_bytes (seen as a stub by the unit local_write_bytes): on success the file holds
+    # EXACTLY the content
+    Unit(name="local_write_local_file", file=LB, anchor="fn write_local_file(\n            filename: &Path,", within="impl WriteBackend for LocalBackend {", ret_name="r",
+         functions=["<rustic_backend::local::LocalBackend as WriteBackend>::write_bytes::write_local_file (nested helper)"],
+         rewrites=[R_LOG, R_MAPERR,
+                   Rw("filename: &Path,\n            mut reader: impl Read,\n            length: u64,\n        ) -> RusticResult<()>", "filename: &PathL,\n            reader0: ReaderL,\n            length: u64, vfs: &mut VFsW,\n        ) -> RusticResult<()>", sig=True, why="path / reader -> stubs; ghost parameter: the repository directory"),
+                   Rw("fs::OpenOptions::new()", "VOpenOptions::new()", why="std::fs::OpenOptions -> the flags it collects"),
+                   Rw(".open(filename)", ".open(filename, vfs)", why="ghost parameter: the repository directory"),
+                   Rw("file.set_len(length)", "file.set_len(length, vfs)", why="ghost parameter"),
+                   Rw("std::io::copy(&mut reader, &mut file)", "vio_copy(&mut reader, &mut file, vfs)", why="std::io::copy -> stub (writes all bytes from offset 0 or fails)"),
+         ],
+         hints=[("before", "let mut file = ", "            let mut reader = reader0;")],
+         contract="""
+    requires length == reader0.data@.len(),   // the caller passes content.size()
+    ensures
+        /*@written_file_holds_exactly_the_content*/ r is Ok ==> final(vfs).files@.dom().contains(filename.key@) && final(vfs).files@[filename.key@] =~= reader0.data@,
+        /*@write_helper_touches_only_its_file*/ forall|k: PKey| k != filename.key@ ==> ((#[trigger] final(vfs).files@.dom().contains(k)) == old(vfs).files@.dom().contains(k)),
+"""),
+]
+
 KANI = []
 META = {"not_covered": [
     "listings: the directory walk itself (walkdir: every file of the type's directory is yielded once), the Config special case of both listings and the name parser Id::from_str (which names are ids: uninterpreted) are NOT decided; the per-entry closures of list and list_with_size ARE units (regular files named by an id, with their true size; the nested helper `length` elided)",
     "the path building itself (base_path / filename / path: PathBuf joins, hex strings): stubs naming the file of a (type, id); Config files ignore the id",
-    "the nested helper write_local_file (create/truncate/set_len/copy/sync_all) is elided: assumed to write the whole content or fail leaving anything under THAT name; fs::rename assumed atomic (POSIX); crash behaviour of the file system itself",
+    "the nested helper write_local_file is a stub inside local_write_bytes and a unit of its own (local_write_local_file: OpenOptions as flags, open/set_len/io::copy with POSIX semantics assumed); fs::rename assumed atomic (POSIX); crash behaviour of the file system itself",
     "of the generic object-store adapter (opendal.rs) read_full / read_partial / write_bytes / remove ARE units over the operator as a map (opendal itself, its fs and memory services, retry/throttle layers: assumed); the per-entry closures of its two listings as well; the lister itself (which objects it yields), the Config special cases, create and the path strings are not; rclone and rest backends; the in-memory test backend",
     "post-create / post-delete user commands (call_command): assumed not to touch the repository files",
 ]}
